@@ -99,6 +99,9 @@ pub const C_Z: u8 = 4;
 /// 150 KiB: larger than any plausible "large write" threshold (64 KiB, 128 KiB)
 pub const C_H: u8 = 5;
 pub const H_LEN: usize = 150 * 1024 + 3;
+/// 1.2 MiB: beyond a plausible "large staging file" threshold of 1 MiB
+pub const C_M: u8 = 6;
+pub const M_LEN: usize = 1200 * 1024 + 1;
 pub const L_LEN: usize = 20 * 1024;
 
 /// Content number `c`: X="xx", Y="yyy", E="", L=20 KiB pattern (> every 8 KiB buffer), Z="zz".
@@ -114,12 +117,16 @@ pub fn content(c: u8) -> &'static [u8] {
             static H: OnceLock<Vec<u8>> = OnceLock::new();
             H.get_or_init(|| (0..H_LEN).map(|i| ((i * 131 + 5) % 241) as u8).collect())
         }
+        6 => {
+            static M: OnceLock<Vec<u8>> = OnceLock::new();
+            M.get_or_init(|| (0..M_LEN).map(|i| ((i * 7 + 3) % 239) as u8).collect())
+        }
         _ => panic!("no content {c}"),
     }
 }
 
 pub fn content_name(c: u8) -> &'static str {
-    ["X", "Y", "E", "L", "Z", "H"][c as usize]
+    ["X", "Y", "E", "L", "Z", "H", "M"][c as usize]
 }
 
 /// Split `data` into write calls. 0: one call (none for empty data); 1: fine-grained
@@ -151,6 +158,8 @@ pub fn chunks(data: &[u8], ch: u8) -> Vec<&[u8]> {
             let (a, b) = data.split_at(data.len() / 2);
             vec![&data[..0], a, &data[..0], b, &data[..0]]
         }
+        // 4: streamed in 4 KiB pieces
+        4 => data.chunks(4096).collect(),
         // 3: a small head, the bulk in one call, a small tail (small-then-large and large-then-small)
         _ => {
             if data.len() < 8 {
